@@ -188,7 +188,7 @@ func runSolver(ctx context.Context, sd solverDef, script string, ms int, cfg *So
 }
 
 // discharge decides one obligation.
-func discharge(u *Unit, o *Oblig, script string, cfg *SolverCfg) {
+func discharge(u *Unit, o *Oblig, script string, sliced string, cfg *SolverCfg) {
 	if o.Trivial {
 		return
 	}
@@ -209,7 +209,7 @@ func discharge(u *Unit, o *Oblig, script string, cfg *SolverCfg) {
 		return
 	}
 	// stage 0: sliced query (assumptions on this obligation's path only)
-	if sl, ok := obligScriptSliced(u, o); ok {
+	if sl := sliced; sl != "" {
 		r, _, _ := runSolver(ctx, solvers[0], sl, 400, cfg, false)
 		if r == "unsat" {
 			o.Result, o.Solver = "unsat", "z3-new/sliced"
@@ -332,31 +332,29 @@ func safeName(s string) string {
 
 // dischargeAll runs all obligations of the units with a worker pool.
 func dischargeAll(units []*Unit, cfg *SolverCfg, filter func(o *Oblig) bool) {
-	type job struct {
-		u      *Unit
-		o      *Oblig
-		script string
-	}
-	var jobs []job
+	sem := make(chan struct{}, cfg.Workers)
+	var wg sync.WaitGroup
 	for _, u := range units {
 		for _, o := range u.Obligs {
 			if o.Trivial || (filter != nil && !filter(o)) {
 				continue
 			}
-			jobs = append(jobs, job{u, o, obligScript(u, o)})
+			// scripts are generated here, one at a time (term construction is not
+			// thread-safe and all scripts at once would not fit in memory)
+			sem <- struct{}{}
+			script := obligScript(u, o)
+			sliced := ""
+			if !o.Cover {
+				sliced, _ = obligScriptSliced(u, o)
+			}
+			u, o := u, o
+			wg.Add(1)
+			go func() {
+				defer wg.Done()
+				defer func() { <-sem }()
+				discharge(u, o, script, sliced, cfg)
+			}()
 		}
-	}
-	sem := make(chan struct{}, cfg.Workers)
-	var wg sync.WaitGroup
-	for _, j := range jobs {
-		j := j
-		wg.Add(1)
-		sem <- struct{}{}
-		go func() {
-			defer wg.Done()
-			defer func() { <-sem }()
-			discharge(j.u, j.o, j.script, cfg)
-		}()
 	}
 	wg.Wait()
 }
